@@ -183,7 +183,7 @@ class ConfigWorld(World):
                 cur["dt"] = op["v"]
                 return {"dt": op["v"]}
             if a == "duration_k":
-                d = op["v"] * cur["dt"]
+                d = op["v"] * (cfg["Y"]["dt"] if op.get("final") else cur["dt"])
                 m.rec.duration = d
                 cur["duration_k"] = op["v"]
                 return {"duration": d}
@@ -213,7 +213,7 @@ class ConfigWorld(World):
             return exp
         if a == "delay_k":
             # a maximum delay of k current steps (the final assignment is made once dt has its final value or recomputed below)
-            d = op["v"] * cur["dt"]
+            d = op["v"] * (cfg["Y"]["dt"] if op.get("final") and kind not in ("connection", "layer") else cur["dt"])
             cur["delay_k"] = op["v"]
             if kind in ("connection", "layer"):
                 if not op["v"]:
@@ -234,7 +234,7 @@ class ConfigWorld(World):
         if a == "duration_k":
             if not op["v"]:
                 return None
-            d = op["v"] * cur["dt"]
+            d = op["v"] * (cfg["Y"]["dt"] if op.get("final") else cur["dt"])
             m.duration = d
             cur["duration_k"] = op["v"]
             return {"duration": d}
@@ -271,9 +271,10 @@ class ConfigWorld(World):
         changed = 0
         # ---------------- drive B from X to Y, one assignment at a time
         sched = list(cfg["sched"])
-        # delays / durations are expressed in steps of the *final* dt: re-assert them after the last dt assignment
+        # connections: learned delays are expressed in steps of the *final* dt, so they (and their maximum) are re-asserted after the last dt
+        # assignment; everywhere else the final delay / duration is an absolute time assigned once, before or after dt as the schedule has it
         last_dt = max((i for i, o in enumerate(sched) if o["attr"] == "dt"), default=-1)
-        tail = [o for i, o in enumerate(sched) if i < last_dt and o.get("final") and o["attr"] in ("delay_k", "duration_k", "delay_values")]
+        tail = [o for i, o in enumerate(sched) if i < last_dt and o.get("final") and o["attr"] in ("delay_k", "delay_values")] if kind in ("connection", "layer") else []
         sched = sched + [dict(o) for o in tail]
         if cfg["to64"]:
             sched.append({"attr": "to64"})      # components attached after the first .to() are converted by a final .to()
